@@ -163,7 +163,7 @@ PROPS["C09"] = _std(
 PROPS["C12"] = _std(
     "exploration",
     "complete enumeration of the finite set of precomputed constants: all 32x8 entries of the fixed-base table (exported limbs vs j*256^i*B computed by repeated affine addition, and each entry selected through mul_base with positive and negated digits), all 64 affine odd multiples, all 64 AVX2 and 64 IFMA cached odd multiples (lane ratios vs (2i+1)B, limb bounds), "
-    "each odd-multiple table also selected through vartime double-base for every odd k<128 under each dispatch, every crate-private field/scalar constant (value from raw limbs and canonical bytes vs defining equation), vector constants 2p/16p and identities, basepoints, group order, EIGHT_TORSION = E[8] in documented order, Ristretto table = Edwards table, length constants. distinct_nontrivial = obligations checked.",
+    "each odd-multiple table also selected through vartime double-base for every odd k<128 under each dispatch, every crate-private field/scalar constant (value from raw limbs and canonical bytes vs defining equation), vector constants 2p/16p and identities, basepoints, group order, EIGHT_TORSION = E[8] in documented order, Ristretto table = Edwards table, length constants, the ff-trait scalar constants (MODULUS text, NUM_BITS, CAPACITY, S, TWO_INV, MULTIPLICATIVE_GENERATOR, ROOT_OF_UNITY(_INV), DELTA) against their definitions. distinct_nontrivial = obligations checked.",
     "The space is finite and enumerated completely for each built configuration.",
     "DESIGN.md section 4, C12",
     "complete enumeration of all table entries and constants against their definitions in the reference model",
